@@ -98,7 +98,8 @@ func VxC14FlushFailure() {
 	vxTheFile = file
 	mw := &vxModelWriter{f: file, failWriteAt: vx.Choice("failWriteAt", 3) - 1, failSyncAt: vx.Choice("failSyncAt", 3) - 1}
 	s := vxNewStore(0)
-	s.wal = &walWriter{dir: dir, writer: mw, currentWALNum: 1, nextWALNum: 2}
+	s.wal = newWALWriter(nil, dir, 2)
+	s.wal.writer, s.wal.currentWALNum = mw, 1
 	h1, h2 := types.Height(vx.U64("h1")), types.Height(vx.U64("h2"))
 	vx.Assume(h1 >= 1 && h2 >= 1)
 
@@ -162,7 +163,8 @@ func VxC14BatchHeadersFollowReaderContract() {
 	vx.Bound("2..3 flushes in one WAL file; each batch holds 1..2 records, each an entry (start of a symbolic height) or a prune marker (symbolic height); headers decoded from the bytes handed to the writer")
 	cw := &vxCaptureWriter{}
 	s := vxNewStore(0)
-	s.wal = &walWriter{writer: cw, currentWALNum: 1, nextWALNum: 2}
+	s.wal = newWALWriter(nil, "", 2)
+	s.wal.writer, s.wal.currentWALNum = cw, 1
 	flushes := 2 + vx.Choice("flushes", 2)
 	for f := 0; f < flushes; f++ {
 		n := 1 + vx.Choice("records", 2)
